@@ -5,17 +5,22 @@
 EXTENDS Server, Json
 
 VARIABLE kinds      \* ghost: kind of each id
-mvars == <<sockq, edge, pc, polled, i, reqI, reqC, empty, out, arrived, nb, nrecv, nempty, hist, kinds>>
-mview == <<sockq, edge, pc, polled, i, reqI, reqC, empty, out, arrived, nb, kinds>>
+mvars == <<sockq, edge, pc, polled, i, reqI, reqC, empty, out, arrived, nb, nrecv, nempty, stats, hist, kinds>>
+mview == <<sockq, edge, pc, polled, i, reqI, reqC, empty, out, arrived, nb, stats, kinds>>
 
 MInit == Init /\ kinds = <<>>
 MNext == \/ (Worker /\ UNCHANGED kinds)
          \/ \E k \in Kinds, s \in Srcs : Arrive(k, s) /\ kinds' = Append(kinds, k)
 MSpec == MInit /\ [][MNext]_mvars /\ WF_mvars(Worker /\ UNCHANGED kinds)
 
-ExactlyOnce == Quiescent => \A n \in 1..arrived : (kinds[n] # "X") <=> (\E r \in out : r.req = n)
+ExactlyOnce == Quiescent => \A n \in 1..arrived : (kinds[n] \in {"C", "I"}) <=> (\E r \in out : r.req = n)
 OwnProtocol == \A r \in out : kinds[r.req] = r.v
-NoReplyToInvalid == \A r \in out : kinds[r.req] # "X"
+NoReplyToInvalid == \A r \in out : kinds[r.req] \notin {"X", "U"}
+\* C17 wiring at quiescence: the recorder's totals are the traffic
+StatsAreTraffic == Quiescent => /\ stats.valid = Cardinality({n \in 1..arrived : kinds[n] # "X"})
+                                /\ stats.invalid = Cardinality({n \in 1..arrived : kinds[n] = "X"})
+                                /\ stats.failed = Cardinality({n \in 1..arrived : kinds[n] = "U"})
+                                /\ stats.responses = Cardinality({n \in 1..arrived : kinds[n] \in {"C", "I"}})
 
 Emit == (pc' = "poll" /\ sockq' = <<>> /\ (LevelTriggered \/ ~edge') /\ arrived' = MaxArr /\ pc # "poll") =>
             PrintT(ToJson([suite |-> "interleavings", B |-> B, pre |-> hist'.pre, inj |-> hist'.inj]))
